@@ -68,7 +68,7 @@ ExploreResult explore(const ExploreCfg& cfg, const RankMain& body, const Oracle&
             Slot s; s.w = stack.back(); stack.pop_back(); s.path = cfg.tmpdir + "/" + cfg.label + "." + std::to_string(getpid()) + "." + std::to_string(R.executions + slots.size()) + ".res";
             // a path per execution; removed after parsing
             fflush(0); pid_t p = fork();
-            if (p == 0) { child_run(cfg, body, oracle, reset, s.w.prefix, s.w.dev, &visited, s.path, s.w.retry ? cfg.child_timeout_s * 10 : cfg.child_timeout_s); _exit(0); }
+            if (p == 0) { child_run(cfg, body, oracle, reset, s.w.prefix, s.w.dev, &visited, s.path, s.w.retry ? cfg.child_timeout_s * 5 : cfg.child_timeout_s); _exit(0); }
             if (p < 0) { R.engine_error = "fork failed"; stop_new = true; break; }
             s.pid = p; slots.push_back(s);
         }
@@ -79,10 +79,11 @@ ExploreResult explore(const ExploreCfg& cfg, const RankMain& body, const Oracle&
         RunRec rr; bool crashed = false; std::string crash;
         if (WIFSIGNALED(st)) { crashed = true; int sg = WTERMSIG(st);
             if (sg == SIGALRM && !s.w.retry) { Work w = s.w; w.retry = true; stack.push_back(w); R.executions--; unlink(s.path.c_str()); continue; }   // confirm with a 10x limit before calling it a hang
-            crash = sg == SIGALRM ? "a rank does not return and makes no MPI call (watchdog, confirmed with a 10x limit)" : "execution crashed with signal " + std::to_string(sg); }
+            crash = sg == SIGALRM ? "a rank does not return and makes no MPI call (watchdog, confirmed with a 5x limit)" : "execution crashed with signal " + std::to_string(sg); }
         else { rr = parse(s.path); if (!rr.ok_file) { crashed = true; crash = "child exited with status " + std::to_string(WEXITSTATUS(st)) + " without a result"; } }
         unlink(s.path.c_str());
-        auto add_found = [&](int kind, const std::string& detail, const std::vector<int>& choices, int dev) { std::string k = std::to_string(kind) + ":" + detail.substr(0, 120); if (found_keys.insert(k).second && R.found.size() < 20) { Found f; f.kind = kind; f.detail = detail; f.choices = choices; f.deviations = dev; R.found.push_back(f); } };
+        // the first counterexample ends the exploration of this configuration (executions already in flight are still collected)
+        auto add_found = [&](int kind, const std::string& detail, const std::vector<int>& choices, int dev) { std::string k = std::to_string(kind) + ":" + detail.substr(0, 120); if (found_keys.insert(k).second && R.found.size() < 4) { Found f; f.kind = kind; f.detail = detail; f.choices = choices; f.deviations = dev; R.found.push_back(f); } if (cfg.stop_at_first) { stop_new = true; if (!stack.empty()) R.exhaustive = false; stack.clear(); } };
         if (crashed) { add_found(Outcome::EXCEPTION, crash, s.w.prefix, s.w.dev); continue; }
         std::vector<int> choices; for (auto& p : rr.pts) if (p.chosen >= 0) choices.push_back(p.chosen);
         R.max_points = std::max<long>(R.max_points, rr.pts.size());
@@ -113,7 +114,7 @@ ExploreResult explore(const ExploreCfg& cfg, const RankMain& body, const Oracle&
 
 int replay_schedule(const ExploreCfg& cfg, const RankMain& body, const Oracle& oracle, const Reset& reset, const std::vector<int>& choices, std::string* text) {
     mkdir(cfg.tmpdir.c_str(), 0755); std::string path = cfg.tmpdir + "/replay." + std::to_string(getpid()) + ".res";
-    fflush(0); pid_t p = fork(); if (p == 0) { child_run(cfg, body, oracle, reset, choices, 0, 0, path, cfg.child_timeout_s * 10); _exit(0); }
+    fflush(0); pid_t p = fork(); if (p == 0) { child_run(cfg, body, oracle, reset, choices, 0, 0, path, cfg.child_timeout_s * 5); _exit(0); }
     int st = 0; waitpid(p, &st, 0); std::ostringstream o;
     if (WIFSIGNALED(st)) { o << "crashed/hung with signal " << WTERMSIG(st); if (text) *text = o.str(); return Outcome::EXCEPTION; }
     RunRec rr = parse(path); unlink(path.c_str());
